@@ -152,6 +152,7 @@ func runC13(o Opts) error {
 		time.Local = z.loc
 		zt := fmt.Sprintf("zt%d", zi)
 		s.CurDep = zt
+		s.Add("CZoneOK "+zt, map[string]any{"op": "zone-table", "tz": z.name, "civil": "", "ctor": -1}, "zone-table-satisfies-window-hypothesis", true)
 		nskip := 0
 		rot := 0
 		allCtors := true
